@@ -69,3 +69,21 @@ def stats(cases, outs):
 
 
 describe = S.describe
+
+
+def classify(case, outs):
+    """Known finding `lost-after-local-close`: ConnectionLost{Reset} reported after a local close()."""
+    closed = set()
+    lost = set()
+    for r in outs:
+        if r[0] == 3 and r[4] == 11:
+            closed.add((r[2], r[3]))
+        elif r[0] == 4 and r[4] == 3:
+            k = (r[2], r[3])
+            if k in closed and k not in lost and r[5] == 5:
+                return "lost-after-local-close"
+            lost.add(k)
+    return None
+
+
+KNOWN_PARAM = {"lost-after-local-close": [902, 1]}
